@@ -125,6 +125,24 @@ theorem exMin_direct_hyps : Start.NoSubTol (1/100000 : ℚ) ((stdK exMinStd).row
   simp at hx; subst hx
   right; rw [h1]; norm_num
 
+/-- what `into_tableau` (tolerance `1e-5`) really returns for `exMin`: `x` itself is the first independent column of
+the only row, so the start is already the optimal tableau `exT'`. -/
+theorem exMin_intoTableau : intoTableau (1/100000 : ℚ) 1 10 (stdK exMinStd) = .ok exT' := by
+  have hr : (stdK exMinStd).rows.map (·.coeffs) = [[1, 1]] := by simp [stdK, exMinStd, toK]
+  have hn : (stdK exMinStd).vars.length = 2 := rfl
+  have hm : (stdK exMinStd).rows.length = 1 := rfl
+  unfold intoTableau
+  simp only [hr, hn, hm, Props.C14.sm0_independent]
+  simp [selectPerRow, List.range, List.range.loop, canonicalise, rowDiv, rowSubMul, stdK, exMinStd, toK, nth, row,
+    Props.C14.T0', List.modify]
+
+theorem exT'_solve : (solve (0:ℚ) 1 10 [] exT').result = .ok () ∧ (solve (0:ℚ) 1 10 [] exT').final = exT' := by
+  have h1 : decide (0 > (Props.C14.T0'.c.length + Props.C14.T0'.a.length + 1)) = false := by decide
+  simp only [solve, solveLoop, h1, exT'_step, and_self]
+
+theorem exMin_startFacts : StartFacts (1/100000 : ℚ) 1 10 (stdK exMinStd) :=
+  Or.inl ⟨exMin_direct_hyps.2, exMin_direct_hyps.1⟩
+
 /-! ### `min −x s.t. −x ≤ 2, x ≥ 0` — unbounded -/
 
 def exUnb : LinModel (Ext ℚ) :=
